@@ -97,6 +97,9 @@ static IRing* mkStatic(unsigned long long n)
     case 16: return mkS<16>();
     case 32: return mkS<32>();
     case 64: return mkS<64>();
+    case 128: return mkS<128>();
+    case 1024: return mkS<1024>();
+    case 65536: return mkS<65536>();
     default: return nullptr;
   }
 }
@@ -131,6 +134,10 @@ static std::string ringTail() { return " | h=" + std::to_string(g_ring->head()) 
 static std::string ringStep(const std::vector<std::string>& t)
 {
   unsigned long long n = 0;
+  static_assert(sizeof(std::size_t) == 8, "the model's nextPowerOfTwo / counters are 64-bit");
+  // the REAL private static DynamicRingBuffer::nextPowerOfTwo, called directly: reaches 2^32+1, 2^63, 2^64-1 without allocating
+  if (t.size() == 3 && t[1] == "npot" && vh::parseNat(t[2], n))
+    return std::to_string(DynamicRingBuffer<u64>::nextPowerOfTwo(static_cast<std::size_t>(n)));
   if (t.size() == 4 && t[1] == "new" && vh::parseNat(t[3], n))
   {
     if (t[2] == "s")
@@ -142,7 +149,7 @@ static std::string ringStep(const std::vector<std::string>& t)
     }
     if (t[2] == "d")
     {
-      if (n > (1ull << 20)) return "bad-op";   // the harness does not allocate gigabytes; the model has no such limit
+      if (n > (1ull << 21)) return "bad-op";   // the harness does not allocate gigabytes; the model has no such limit
       g_ring.reset(new RingT<DynamicRingBuffer<u64>, true>(static_cast<std::size_t>(n)));
       return "ok cap=" + std::to_string(g_ring->capacity());
     }
@@ -191,10 +198,145 @@ static std::string ringStep(const std::vector<std::string>& t)
   if (op == "clear" && t.size() == 2) { g_ring->clear(); return "ok" + ringTail(); }
   if (op == "resize" && t.size() == 3 && vh::parseNat(t[2], n))
   {
-    if (n > (1ull << 20)) return "bad-op";
+    if (n > (1ull << 21)) return "bad-op";
     std::size_t dropped = 0;
     if (!g_ring->resize(static_cast<std::size_t>(n), dropped)) return "bad-op";
     return std::to_string(dropped) + " cap=" + std::to_string(g_ring->capacity()) + ringTail();
+  }
+  return "bad-op";
+}
+
+// ------------------------------------------------------------------------------------------------ rings of a THROWING element type
+// `ringt …`: the same two ring classes instantiated with Tracked{id, alive}: copy/move assignment can be armed to throw on its
+// K-th execution inside ONE ring call (before modifying anything, like a failed allocation in a real operator=); a moved-from
+// element is a husk (alive = false).  Answers show elements as their id, husks as `M`.  Model: Model/RingThrow.lean.
+struct Boom { };
+static long g_arm = 0;          // K-th element assignment from now throws; 0 = disarmed
+static long g_assigned = 0;     // element assignments performed by the current ring call
+struct Tracked
+{
+  u64 id = 0;
+  bool alive = false;
+  Tracked() = default;
+  explicit Tracked(u64 i) : id(i), alive(true) {}
+  Tracked(const Tracked&) = default;
+  Tracked(Tracked&&) = default;
+  static void tick() { if (g_arm > 0 && --g_arm == 0) throw Boom{}; ++g_assigned; }
+  Tracked& operator=(const Tracked& o) { tick(); id = o.id; alive = o.alive; return *this; }
+  Tracked& operator=(Tracked&& o) { tick(); id = o.id; alive = o.alive; o.alive = false; o.id = 0; return *this; }
+};
+static std::string cellStr(const Tracked& t) { return t.alive ? std::to_string(t.id) : std::string("M"); }
+static std::string cellsStr(const Tracked* p, std::size_t n)
+{
+  if (n == 0) return "-";
+  std::string s;
+  for (std::size_t i = 0; i < n; ++i) { if (i) s += ','; s += cellStr(p[i]); }
+  return s;
+}
+static std::unique_ptr<DynamicRingBuffer<Tracked>> g_td;
+static std::unique_ptr<RingBuffer<Tracked, 8>> g_ts;
+template <class F> static auto withRing(F f) { return g_td ? f(*g_td) : f(*g_ts); }
+static std::string ringtTail()
+{
+  return withRing([](auto& r) {
+    std::size_t h = r._head.load(), t = r._tail.load(), n = h - t;
+    std::string w;
+    if (n > 64) w = "?";
+    else if (n == 0) w = "-";
+    else
+      for (std::size_t i = 0; i < n; ++i)
+      {
+        if (i) w += ',';
+        if constexpr (std::is_same_v<std::decay_t<decltype(r)>, DynamicRingBuffer<Tracked>>) w += cellStr(r._buffer[(t + i) & r._mask]);
+        else w += cellStr(r._buffer[(t + i) & std::decay_t<decltype(r)>::kMask]);
+      }
+    return " | h=" + std::to_string(h) + " t=" + std::to_string(t) + " w=" + w;
+  });
+}
+// ringt new d <n> | ringt new s 8 | ringt <op> [arg] [@K]   (@K: the K-th element assignment inside this call throws)
+static std::string ringtStep(std::vector<std::string> t)
+{
+  unsigned long long n = 0;
+  if (t.size() == 4 && t[1] == "new" && vh::parseNat(t[3], n))
+  {
+    g_td.reset(); g_ts.reset();
+    if (t[2] == "d" && n <= 4096) { g_td.reset(new DynamicRingBuffer<Tracked>(static_cast<std::size_t>(n))); return "ok cap=" + std::to_string(g_td->capacity()); }
+    if (t[2] == "s" && n == 8) { g_ts.reset(new RingBuffer<Tracked, 8>()); return "ok cap=8"; }
+    return "bad-op";
+  }
+  if (!g_td && !g_ts) return "bad-op";
+  long arm = 0;
+  if (t.size() > 2 && t.back().size() > 1 && t.back()[0] == '@')
+  {
+    unsigned long long k = 0;
+    if (!vh::parseNat(t.back().substr(1), k) || k > 100000) return "bad-op";
+    arm = static_cast<long>(k);
+    t.pop_back();
+  }
+  const std::string& op = t[1];
+  struct Disarm { ~Disarm() { g_arm = 0; } } disarm;
+  g_assigned = 0;
+  std::vector<Tracked> out;
+  try
+  {
+    if ((op == "push" || op == "pushm") && t.size() == 3 && vh::parseNat(t[2], n))
+    {
+      Tracked v(n);
+      g_arm = arm;
+      bool b = withRing([&](auto& r) { return op == "push" ? r.tryPush(v) : r.tryPush(std::move(v)); });
+      g_arm = 0;
+      return std::string(b ? "1" : "0") + ringtTail();
+    }
+    if (op == "pop" && t.size() == 2)
+    {
+      Tracked v;
+      g_arm = arm;
+      bool b = withRing([&](auto& r) { return r.tryPop(v); });
+      g_arm = 0;
+      return (b ? "1 " + cellStr(v) : std::string("0")) + ringtTail();
+    }
+    if (op == "peek" && t.size() == 2)
+    {
+      Tracked v;
+      g_arm = arm;
+      bool b = withRing([&](auto& r) { return r.peek(v); });
+      g_arm = 0;
+      return (b ? "1 " + cellStr(v) : std::string("0")) + ringtTail();
+    }
+    if (op == "pushb" && t.size() == 3)
+    {
+      std::vector<u64> xs;
+      if (!parseList(t[2], xs)) return "bad-op";
+      std::vector<Tracked> items;
+      for (u64 x : xs) items.emplace_back(x);
+      g_arm = arm;
+      std::size_t k = withRing([&](auto& r) { return r.tryPushBatch(items.data(), items.size()); });
+      g_arm = 0;
+      return std::to_string(k) + ringtTail();
+    }
+    if (op == "popb" && t.size() == 3 && vh::parseNat(t[2], n) && n <= 4096)
+    {
+      out.resize(static_cast<std::size_t>(n) + 1);
+      g_arm = arm;
+      std::size_t k = withRing([&](auto& r) { return r.tryPopBatch(out.data(), static_cast<std::size_t>(n)); });
+      g_arm = 0;
+      return std::to_string(k) + " " + cellsStr(out.data(), k) + ringtTail();
+    }
+    if (op == "resize" && t.size() == 3 && vh::parseNat(t[2], n) && n <= 4096 && g_td)
+    {
+      g_arm = arm;
+      std::size_t d = g_td->resize(static_cast<std::size_t>(n));
+      g_arm = 0;
+      return std::to_string(d) + " cap=" + std::to_string(g_td->capacity()) + ringtTail();
+    }
+    if (op == "size" && t.size() == 2) return std::to_string(withRing([](auto& r) { return r.size(); })) + ringtTail();
+  }
+  catch (const Boom&)
+  {
+    g_arm = 0;
+    // what the caller holds after the exception: the elements already assigned into its out[] array (tryPopBatch)
+    std::string got = (op == "popb" && g_assigned > 0) ? " " + cellsStr(out.data(), static_cast<std::size_t>(g_assigned)) : std::string();
+    return "throw " + std::to_string(g_assigned) + got + ringtTail();
   }
   return "bad-op";
 }
@@ -235,7 +377,21 @@ static std::string doCall(BQ* q, const Call& c, bool move)
 
 // one-caller op: executed as a one-thread DetSched run, so that a timed wait times out in virtual time and a call
 // that can never return is detected (`blocks`) instead of hanging the harness
-static std::string seqCall(const Call& c, bool move, unsigned ms)
+// time-out token of the one-caller timed ops: decimal milliseconds (may be negative), `max` = milliseconds::max(), `min` = milliseconds::min()
+static bool parseTimeout(const std::string& s, long long& ms)
+{
+  if (s == "max") { ms = std::chrono::milliseconds::max().count(); return true; }
+  if (s == "min") { ms = std::chrono::milliseconds::min().count(); return true; }
+  if (s.empty()) return false;
+  std::size_t i = s[0] == '-' ? 1 : 0;
+  if (i == s.size() || s.size() - i > 18) return false;
+  long long v = 0;
+  for (; i < s.size(); ++i) { if (s[i] < '0' || s[i] > '9') return false; v = v * 10 + (s[i] - '0'); }
+  ms = s[0] == '-' ? -v : v;
+  return true;
+}
+
+static std::string seqCall(const Call& c, bool move, long long ms)
 {
   if (!g_bq) return "no-queue";
   BQ* q = g_bq;
@@ -608,16 +764,18 @@ static std::string bqStep(const std::vector<std::string>& t)
     g_bq = new BQ(static_cast<std::size_t>(n));
     return "ok";
   }
+  // the destructor with nobody inside (the only lifetime-correct use): ~BlockingQueue() = close() (+ member destruction)
+  if (op == "destroy" && t.size() == 2) { if (!g_bq) return "no-queue"; delete g_bq; g_bq = nullptr; return "ok"; }
   if (op == "sched") return schedRun(t);
   if (op == "explore") return exploreRun(t);
   if (op == "replay") return "bad-op";   // model-only op
   if ((op == "q" || op == "qm") && t.size() == 3 && vh::parseNat(t[2], n)) return seqCall(Call{'q', n}, op == "qm", 0);
   if ((op == "tq" || op == "tqm") && t.size() == 3 && vh::parseNat(t[2], n)) return seqCall(Call{'t', n}, op == "tqm", 0);
-  unsigned long long ms = 0;
-  if ((op == "tqf" || op == "tqfm") && t.size() == 4 && vh::parseNat(t[2], n) && vh::parseNat(t[3], ms))
-    return seqCall(Call{'f', n}, op == "tqfm", static_cast<unsigned>(ms));
+  long long ms = 0;
+  if ((op == "tqf" || op == "tqfm") && t.size() == 4 && vh::parseNat(t[2], n) && parseTimeout(t[3], ms))
+    return seqCall(Call{'f', n}, op == "tqfm", ms);
   if (op == "d" && t.size() == 2) return seqCall(Call{'d', 0}, false, 0);
-  if (op == "df" && t.size() == 3 && vh::parseNat(t[2], ms)) return seqCall(Call{'e', 0}, false, static_cast<unsigned>(ms));
+  if (op == "df" && t.size() == 3 && parseTimeout(t[2], ms)) return seqCall(Call{'e', 0}, false, ms);
   if (op == "td" && t.size() == 2) return seqCall(Call{'y', 0}, false, 0);
   if (op == "close" && t.size() == 2) return seqCall(Call{'c', 0}, false, 0);
   if (op == "size" && t.size() == 2) return seqCall(Call{'s', 0}, false, 0);
@@ -635,6 +793,7 @@ int main()
     {
       if (t.empty()) return "bad-op";
       if (t[0] == "ring" || t[0] == "spsc") return ringStep(t);   // `spsc …`: same real ring; the model side answers from Model/RingSpsc.lean
+      if (t[0] == "ringt") return ringtStep(t);
       if (t[0] == "bq") return bqStep(t);
       return "bad-op";
     }
